@@ -40,10 +40,11 @@ const (
 	opEnum
 	opFetchS
 	opRemoveS
+	opRemove3
 	nOps
 )
 
-var opNames = []string{"recv-a", "recv-k", "stat3", "enum", "fetch-s", "remove-s"}
+var opNames = []string{"recv-a", "recv-k", "stat3", "enum", "fetch-s", "remove-s", "remove3"}
 
 func gateOccupancy() int {
 	return files.VerifGateOccupancy() + diskpacked.VerifGateOccupancy() + blobpacked.VerifGateOccupancy() + encrypt.VerifGateOccupancy()
@@ -255,6 +256,36 @@ func runOp(sto blobserver.Storage, spec *bk.Spec, o int, ref *hs.RefMap, uncerta
 		}
 		ref.Del(b)
 		delete(uncertain, b.Name)
+	case opRemove3:
+		// one batched removal of the whole universe (spans shards / replicas / small+large)
+		var refs []blob.Ref
+		for _, b := range universe {
+			refs = append(refs, b.Ref)
+		}
+		err := sto.RemoveBlobs(ctx, refs)
+		if !spec.Removes {
+			return
+		}
+		if err != nil {
+			for _, b := range universe {
+				if ref.Has(b) {
+					uncertain[b.Name] = b
+					ref.Del(b) // resolved by observation later
+				}
+			}
+			errored("remove-error", fmt.Sprintf("RemoveBlobs(a,s,k): %v", err))
+			return
+		}
+		for _, b := range universe {
+			if ok, err := present(b); err == nil && ok {
+				wrong("remove-acknowledged-but-blob-still-present", fmt.Sprintf("RemoveBlobs(a,s,k) returned success but %s is still fetchable right afterwards", b.Name))
+				return // keep the reference at the observed state so that the one defect is reported once
+			}
+		}
+		for _, b := range universe {
+			ref.Del(b)
+			delete(uncertain, b.Name)
+		}
 	case opFetchS:
 		b := universe[1]
 		if _, unc := uncertain[b.Name]; unc {
